@@ -249,6 +249,7 @@ class DecodeMobileAlloc(Contract):
 
             def only_decoded(a):
                 wa = w(a) if w is not None else z3.IntVal(0)
+                c.instantiate(wa)          # the bit index that flagged a: hopping[hrank(wa)] == f[wa] is needed there
                 return z3.Implies(z3.And(0 <= a, a < S.NARFCN, S.has_bit(sel(mask, a), HOPP)),
                                   z3.And(0 <= wa, wa < T, bit(wa), sel(hop, hr(wa)) == a))
             posts += [("si4.other_flags_unchanged", c.forall(others_unchanged, "a")),
